@@ -118,6 +118,17 @@ CHECKS = {
         "Covers the constructs of harness/fmodel.py, not the whole language; layout is limited to non-structural variation here (C13 covers splitting/joining).",
         "DESIGN.md §3 C05",
     ),
+    "C06": (
+        "exploration",
+        "Hypothesis grammar-based program generation; occurrence-table oracle for references / documentHighlight / rename, plus rename round trip through a fresh server",
+        "For sampled entities of every generated program the results of references and documentHighlight (from several occurrences) and the "
+        "edits of rename must equal the model's occurrence set (required: occurrences spelled with the entity's own name; optional: alias-"
+        "spelled, function-result and same-name-binding occurrences); missing and extra ranges are classified from local context (same name one "
+        "separator earlier, inside comment / character literal, bound to a homonym, role). Exact renames are applied and re-indexed: all edited "
+        "occurrences must resolve to one renamed declaration. Hand-built programs cover names containing '$'.",
+        "Occurrence table of harness/fmodel.py; layouts without statement splitting/joining; per program at most 14 entities are queried.",
+        "DESIGN.md §3 C06",
+    ),
 }
 
 NOT_YET = "check not built yet in this session (work in progress; see DESIGN.md §3 for the planned generator and oracle)"
